@@ -33,8 +33,15 @@ type c11env struct {
 	hostile sync.Map // case marker -> *atomic.Int64 handler invocations
 	hOK     atomic.Int64
 	hErr    atomic.Value
-	stop    chan struct{}
-	wg      sync.WaitGroup
+	hStall  atomic.Int64 // unix nanos of the healthy client's last timed-out round trip
+	// control: a second server in the same process that no hostile peer ever talks to, with its own
+	// well-behaved client: if that one stalls too, the machine is overloaded and the case says nothing
+	ctlSrv *netfx.Server
+	ctl    mpx.Conn
+	cOK    atomic.Int64
+	cStall atomic.Int64
+	stop   chan struct{}
+	wg     sync.WaitGroup
 }
 
 func newC11Env() (*c11env, error) {
@@ -67,8 +74,24 @@ func newC11Env() (*c11env, error) {
 		return nil, fmt.Errorf("healthy connect: %v", st)
 	}
 	e.healthy = c
-	e.wg.Add(1)
-	go func() {
+	echo := mpx.HandleFunc(func(ctx mpx.Context, ch mpx.Channel) status.Status {
+		m, st := ch.Receive(ctx)
+		if !st.OK() {
+			return status.OK
+		}
+		return ch.SendAndClose(ctx, m)
+	})
+	ctlSrv, err := netfx.StartServer(echo, netfx.NewLogger(), opts)
+	if err != nil {
+		return nil, err
+	}
+	e.ctlSrv = ctlSrv
+	cc, st := mpx.Connect(ctxNone(), ctlSrv.Addr, netfx.NewLogger(), opts)
+	if !st.OK() {
+		return nil, fmt.Errorf("control connect: %v", st)
+	}
+	e.ctl = cc
+	loop := func(conn mpx.Conn, ok, stall *atomic.Int64, fatal *atomic.Value) {
 		defer e.wg.Done()
 		for i := 0; ; i++ {
 			select {
@@ -76,13 +99,24 @@ func newC11Env() (*c11env, error) {
 				return
 			default:
 			}
-			if err := e.healthyRoundTrip(i); err != nil {
-				e.hErr.Store(err.Error())
+			err, timedOut := e.roundTrip(conn, i)
+			switch {
+			case timedOut:
+				stall.Store(time.Now().UnixNano())
+			case err != nil:
+				if fatal != nil {
+					fatal.Store(err.Error())
+				}
 				return
+			default:
+				ok.Add(1)
 			}
 			time.Sleep(200 * time.Microsecond)
 		}
-	}()
+	}
+	e.wg.Add(2)
+	go loop(e.healthy, &e.hOK, &e.hStall, &e.hErr)
+	go loop(e.ctl, &e.cOK, &e.cStall, nil)
 	return e, nil
 }
 
@@ -99,43 +133,49 @@ func (e *c11env) handlerCount(key string) int64 {
 	return n
 }
 
-func (e *c11env) healthyRoundTrip(i int) error {
-	ch, st := e.healthy.Channel(ctxNone())
+func (e *c11env) roundTrip(conn mpx.Conn, i int) (err error, timedOut bool) {
+	ch, st := conn.Channel(ctxNone())
 	if !st.OK() {
-		return fmt.Errorf("healthy Channel(): %v", st)
+		return fmt.Errorf("healthy Channel(): %v", st), false
 	}
 	defer ch.Free()
 	p := append([]byte("H"), netfx.Make(netfx.Header{Chan: uint32(i)}, 40+i%200)...)
 	if st := ch.Send(ctxNone(), p); !st.OK() {
-		return fmt.Errorf("healthy Send: %v", st)
+		return fmt.Errorf("healthy Send: %v", st), false
 	}
-	m, st := ch.Receive(async.TimeoutContext(healthyTimeout()))
+	ctx := async.TimeoutContext(healthyTimeout())
+	defer ctx.Free()
+	m, st := ch.Receive(ctx)
 	if !st.OK() {
-		// keep the evidence: where is everybody?
-		return fmt.Errorf("healthy Receive: %v (round trip %d, %d bytes sent)\n%s", st, i, len(p), goroutineDump())
+		if st.Code == status.CodeTimeout {
+			return fmt.Errorf("healthy Receive: %v (round trip %d, %d bytes sent)", st, i, len(p)), true
+		}
+		return fmt.Errorf("healthy Receive: %v (round trip %d, %d bytes sent)", st, i, len(p)), false
 	}
 	if string(m) != string(p) {
-		return fmt.Errorf("healthy echo corrupted (%d bytes, want %d)", len(m), len(p))
+		return fmt.Errorf("healthy echo corrupted (%d bytes, want %d)", len(m), len(p)), false
 	}
-	e.hOK.Add(1)
-	return nil
+	return nil, false
 }
 
-// healthyTimeout bounds one echo round trip of the well-behaved client (30 s; VERIF_C11_HEALTHY_S overrides).
+// healthyTimeout bounds one echo round trip of the well-behaved and of the control client (8 s, below the
+// 20 s progress bound, so that a stall is on record when progress is judged; VERIF_C11_HEALTHY_S overrides).
 func healthyTimeout() time.Duration {
 	if v := os.Getenv("VERIF_C11_HEALTHY_S"); v != "" {
 		if n, err := strconv.Atoi(v); err == nil {
 			return time.Duration(n) * time.Second
 		}
 	}
-	return 30 * time.Second
+	return 8 * time.Second
 }
 
 func (e *c11env) close() {
 	close(e.stop)
 	e.wg.Wait()
 	e.healthy.Close()
+	e.ctl.Close()
 	e.srv.Stop()
+	e.ctlSrv.Stop()
 }
 
 var c11seq atomic.Uint32
@@ -149,23 +189,35 @@ func frameBytes(body []byte) []byte {
 }
 
 // healthyCheck verifies the well-behaved client after a hostile script.
-func (e *c11env) healthyCheck(t ev.TB, kase any, before int64) {
-	// the healthy client must make progress after the script
-	deadline := time.Now().Add(boundArrive())
+func (e *c11env) healthyCheck(rt *rapid.T, kase any, before int64) {
+	// the healthy client must make progress after the script; a stall counts against the hostile script only
+	// if the control client (own server, no hostile traffic) kept going meanwhile
+	start := time.Now()
+	cBefore := e.cOK.Load()
+	overloaded := func() bool {
+		return e.cStall.Load() > start.Add(-healthyTimeout()).UnixNano() || e.cOK.Load() <= cBefore+1
+	}
+	deadline := start.Add(boundArrive())
 	for e.hOK.Load() <= before+1 {
 		if v := e.hErr.Load(); v != nil {
-			ev.Violation(t, c11, "healthy-client-disturbed", kase, "well-behaved client on another connection failed: %v; server log: %v", v, e.log.Records())
+			ev.Violation(rt, c11, "healthy-client-disturbed", kase, "well-behaved client on another connection failed: %v; server log: %v", v, e.log.Records())
 		}
 		if time.Now().After(deadline) {
-			ev.Violation(t, c11, "healthy-client-disturbed", kase, "well-behaved client made no progress for %v after the hostile script", boundArrive())
+			if overloaded() {
+				ev.InfraSkip(rt, c11, "neither the well-behaved client nor the control client (separate server without hostile traffic) made progress for %v: machine overloaded", boundArrive())
+			}
+			ev.Violation(rt, c11, "healthy-client-disturbed", kase, "well-behaved client made no progress for %v after the hostile script while the control client on an untouched server completed %d round trips", boundArrive(), e.cOK.Load()-cBefore)
 		}
 		time.Sleep(time.Millisecond)
 	}
+	if hs := e.hStall.Load(); hs > start.Add(-healthyTimeout()).UnixNano() && e.cStall.Load() < hs-int64(2*healthyTimeout()) {
+		ev.Violation(rt, c11, "healthy-client-disturbed", kase, "a round trip of the well-behaved client timed out after %v around this hostile script while the control client on an untouched server kept completing round trips (%d since)", healthyTimeout(), e.cOK.Load()-cBefore)
+	}
 	if e.healthy.Closed().IsSet() {
-		ev.Violation(t, c11, "healthy-client-disturbed", kase, "well-behaved client's connection was closed")
+		ev.Violation(rt, c11, "healthy-client-disturbed", kase, "well-behaved client's connection was closed")
 	}
 	if !e.srv.S.Running().IsSet() {
-		ev.Violation(t, c11, "server-stopped", kase, "server is no longer running: %v", e.srv.S.Status())
+		ev.Violation(rt, c11, "server-stopped", kase, "server is no longer running: %v", e.srv.S.Status())
 	}
 }
 
